@@ -407,11 +407,19 @@ Qed.
 Definition tok_ok (t : token) : Prop :=
   (t_typ t = TDirection -> dir_ok (t_val t) = true) /\
   (t_typ t = TMsgName -> has_space_rune (t_val t) = false) /\
-  (t_typ t = TItemType -> mem_bytes (t_val t) item_types = true).
+  (t_typ t = TItemType -> mem_bytes (t_val t) item_types = true) /\
+  (t_typ t = TVariable -> is_ellipsis (t_val t) = false).
 Definition final (t : token) : Prop := t_typ t = TEOF \/ t_typ t = TError.
 
-Lemma tok_ok_other ty v off : ty <> TDirection -> ty <> TMsgName -> ty <> TItemType -> tok_ok (mk ty v off).
-Proof. intros H1 H2 H3. repeat split; cbn; intro H; congruence. Qed.
+Lemma tok_ok_other ty v off : ty <> TDirection -> ty <> TMsgName -> ty <> TItemType -> ty <> TVariable -> tok_ok (mk ty v off).
+Proof. intros H1 H2 H3 H4. repeat split; cbn; intro H; congruence. Qed.
+
+(* a variable name starts with a letter or '_': it is not an ellipsis *)
+Lemma alpha_not_ellipsis c x : is_alpha_ c = true -> is_ellipsis (c :: x) = false.
+Proof.
+  intro H. destruct x as [|a [|b x]]; try reflexivity. cbn [is_ellipsis].
+  destruct (byte_eqb c x2e) eqn:E; [|reflexivity]. apply byte_eqb_spec in E. subst c. discriminate.
+Qed.
 Lemma tok_ok_err e v off : tok_ok (mkerr e v off).
 Proof. repeat split; cbn; intro H; discriminate. Qed.
 
@@ -446,7 +454,7 @@ Proof.
     { apply Sh_emit; [apply (consumes_lt _ _ _ (match_wbit_consumes _ _ _ E2))|other|notfinal]. }
     destruct (match_dir s) as [[m r]|] eqn:E3.
     { apply Sh_emit; [apply (consumes_lt _ _ _ (match_dir_consumes _ _ _ E3))| |notfinal].
-      repeat split; cbn; intro H; [apply (match_dir_ok _ _ _ E3)|discriminate|discriminate]. }
+      repeat split; cbn; intro H; [apply (match_dir_ok _ _ _ E3)|discriminate|discriminate|discriminate]. }
     destruct s as [|b r].
     { fin1 (mk TEOF (B"EOF"%string) off); [other|left; reflexivity]. }
     destruct (is_ws b).
@@ -462,17 +470,20 @@ Proof.
     { apply Sh_skip. rewrite skipn_length. cbn [length] in *. lia. }
     apply Sh_emit; [| |notfinal].
     + rewrite skipn_length, app_length, firstn_length_le by exact Hle. cbn [length] in *. lia.
-    + repeat split; cbn; intro H; [discriminate| |discriminate]. apply (name_token_no_space (b :: r) r0 w0); [discriminate|exact Ed|exact Esp].
+    + repeat split; cbn; intro H; [discriminate| |discriminate|discriminate]. apply (name_token_no_space (b :: r) r0 w0); [discriminate|exact Ed|exact Esp].
   - (* message text *)
     destruct (match_ellipsis s) as [[m r]|] eqn:E1.
     { apply Sh_emit; [apply (consumes_lt _ _ _ (match_ellipsis_consumes _ _ _ E1))|other|notfinal]. }
     destruct (match_ident s) as [[m r]|] eqn:E2.
     { pose proof (consumes_lt _ _ _ (match_ident_consumes _ _ _ E2)) as Hlt.
       destruct (mem_bytes (to_upper m) item_types) eqn:Emem.
-      { apply Sh_emit; [exact Hlt| |notfinal]. repeat split; cbn; intro H; [discriminate|discriminate|exact Emem]. }
+      { apply Sh_emit; [exact Hlt| |notfinal]. repeat split; cbn; intro H; [discriminate|discriminate|exact Emem|discriminate]. }
       destruct (bytes_eqb (to_upper m) [x54] || bytes_eqb (to_upper m) [x46]); [apply Sh_emit; [exact Hlt|other|notfinal]|].
       destruct (match_indices (length r) r) as [ix r'] eqn:Ei. apply match_indices_eq in Ei.
-      apply Sh_emit; [|other|notfinal]. subst r. rewrite app_length in Hlt. lia. }
+      apply Sh_emit; [| |notfinal]; [subst r; rewrite app_length in Hlt; lia|].
+      repeat split; cbn [t_typ t_val mk]; intro H; try discriminate H.
+      unfold match_ident in E2. destruct s as [|c0 s0]; [discriminate|]. destruct (is_alpha_ c0) eqn:Ea; [|discriminate].
+      destruct (span is_word s0) as [w0 r0]. inversion E2; subst m. cbn [app]. apply alpha_not_ellipsis. exact Ea. }
     destruct s as [|b r].
     { fin1 (mk TEOF (B"EOF"%string) off); [other|left; reflexivity]. }
     match goal with |- context [if ?c then _ else _] => change c with (numstart b r); destruct (numstart b r) eqn:En end.
